@@ -172,6 +172,8 @@ def pv_enc(v):
         return "A[" + ";".join(pv_enc(x) for x in v) + "]"
     if isinstance(v, list):
         return "L[" + ",".join(pv_enc(x) for x in v) + "]"
+    if isinstance(v, dict):
+        return "D{" + ";".join(pv_enc(k) + ":" + pv_enc(x) for k, x in v.items()) + "}"
     if isinstance(v, tuple):
         return "T(" + ",".join(pv_enc(x) for x in v) + ")"
     raise TypeError("no wire form for %r" % type(v))
@@ -194,6 +196,9 @@ def pv_dec(tok):
     if tok.startswith("M[") and tok.endswith("]"):
         body = tok[2:-1]
         return np.array([[pv_dec(x) for x in r.split(";")] for r in body.split("|")] if body else [], dtype=int)
+    if tok.startswith("D{") and tok.endswith("}"):
+        body = tok[2:-1]
+        return {pv_dec(kv.split(":")[0]): pv_dec(kv.split(":")[1]) for kv in body.split(";")} if body else {}
     if tok.startswith("L[") and tok.endswith("]"):
         body = tok[2:-1]
         return [pv_dec(x) for x in body.split(",")] if body else []
